@@ -127,10 +127,10 @@ PROPS = {
               "Every scheduling path performs exactly one append-at-back section before returning (schedule_job_desync, sync_drain, sync_background; skeletons of desync/future_desync/future_sync/after/suspend and the Desync wrappers); the immediate path requires 'was Idle AND empty'; dequeue pops the front; requeue pushes the popped job back at the front; L-fifo/L-open show no other queue effect is possible.",
               _NOTE + "The real-time-order statement is the composition of these per-call facts (the append lies inside the call interval)."),
     "C03": _p("DESIGN.md 7/C03", _T + "reschedule-debt ghost + pool hand-off contract",
-              "At most once: Job::run / FutureJob::run / wrap_fnonce take their closure (second run panics); no job is lost or duplicated by any section (v_conserve). Not stranded, as safety: every API function returns without the run token (P1) and with its reschedule debt paid (P2: whoever leaves the queue free and non-empty has pushed it on the schedule and called schedule_thread); schedule_thread gives up only after seeing every pool thread busy under its busy lock with the pool at its maximum; the pool loop clears busy only in the section whose fetch was empty (P4).",
+              "At most once: Job::run / FutureJob::run / wrap_fnonce take their closure (second run panics); no job is lost or duplicated by any section (v_conserve). Not stranded, as safety: every API function returns without the run token (P1) and with its reschedule debt paid (P2: whoever leaves the queue free and non-empty has pushed it on the schedule and called schedule_thread); schedule_thread gives up only after seeing every pool thread busy under its busy lock with the pool at its maximum; the pool loop clears busy only in the section whose fetch was empty (P4); a pool thread's OS loop runs every job it receives once, in order, leaves only when its channel is closed and never catches a job's panic; Job::new / FutureJob::new hold what run consumes.",
               _NOTE + _LIVE + "The mpsc hand-over inside SchedulerThread and OS scheduling are assumed."),
     "C04": _p("DESIGN.md 7/C04", _T + "strategy-selection contract of sync + callee preconditions",
-              "sync's decision section: Immediate only from Idle-and-empty, drain/background append the caller's job exactly once, a Panicked queue is refused; sync_immediate returns the closure's own value (job.ensures); sync_drain/sync_background exit only with their result / ready flag, release the token and pay the debt; the steal branch is a proper acquire..release under a panic guard; UnsafeJob::drop publishes `ready` under its mutex and then notifies; no lock is held while blocking.",
+              "sync's decision section: Immediate only from Idle-and-empty, drain/background append the caller's job exactly once, a Panicked queue is refused; sync_immediate returns the closure's own value (job.ensures); sync_drain/sync_background exit only with their result / ready flag, release the token and pay the debt; the steal branch is a proper acquire..release under a panic guard; UnsafeJob::drop publishes `ready` under its mutex and then notifies; no lock is held while blocking; at every hand-back of a queue every blocked sync caller that is still waiting is notified (reschedule_notifies_every_live_waiter); the crate-level `sync` makes exactly one Scheduler::sync call on the global scheduler and returns its value; the lifetime-erased job designates the borrowed job and runs it once per run.",
               _NOTE + _LIVE + "The value link through the two boxed closures (3 lines each) is assumed and listed in trusted_base."),
     "C05": _p("DESIGN.md 7/C05", _T + "corollary: Drop skeleton + S-unsafe + C02/C04 contracts",
               "Drop for Desync performs exactly one synchronous scheduling call (sync, or sync_no_panic while unwinding); both Box::from_raw sites are inside the closures passed to those calls (S-unsafe); sync runs its closure once, ordered after everything appended before (C02/C04 contracts); pipes reach their target only through Weak::upgrade and dispose of late references on the chute.",
@@ -169,7 +169,7 @@ PROPS = {
               "Drop for PipeStream: closed set, pending flushed, the producer's registered waker taken and woken, on_drop scheduled once on the chute; producer: stops when the core is gone or closed, and registers for 'stream dropped' only in a section that saw the stream still open (otherwise it must stop); the poll job clears poll_fn (stream + closure) when the body says stop; PipeContext::poll disposes of it when the target is gone.",
               _NOTE + "That clearing poll_fn frees stream and closure is Rust ownership (A8)."),
     "C17": _p("DESIGN.md 7/C17", _T + "contracts on the threads-vector sections + L-pool",
-              "spawn_thread_if_less_than_maximum: decided under the threads lock, spawns iff len < max, adds exactly one entry, and SchedulerThread::new is reachable only with `len < max` established; despawn_threads_if_overloaded brings the vector down to the maximum keeping the first entries and joins outside the lock; remove_finished_threads only shrinks; set_max_threads stores the maximum first; L-pool: no section takes the pool above its maximum; max = 0 never spawns.",
+              "spawn_thread_if_less_than_maximum: decided under the threads lock, spawns iff len < max, adds exactly one entry, and SchedulerThread::new is reachable only with `len < max` established; despawn_threads_if_overloaded brings the vector down to the maximum keeping the first entries and joins outside the lock; remove_finished_threads only shrinks; set_max_threads stores the maximum first; L-pool: no section takes the pool above its maximum; max = 0 never spawns; a new scheduler owns no thread; create_job_queue does not touch the pool and the library never calls the public unconditional spawn_thread.",
               _NOTE + "Scheduler::spawn_thread (public, deliberately unconditional) is outside the property; a maximum lowered concurrently with a spawn is excluded by the property ('between phases')."),
 }
 
